@@ -307,6 +307,8 @@ class Interp:
     def str_join(self, sep: Any, items: Any) -> Any:
         if isinstance(items, core.SList) and isinstance(sep, (str, bytes)) and len(sep) == 0:
             return items.joined
+        if hasattr(items, '__pyvc_join__'):
+            return items.__pyvc_join__(self, sep)  # contract-side summary of a lazily mapped symbolic sequence
         items = list(self.iterate(items))
         if not items:
             return '' if isinstance(sep, (str, SStr)) and core._kind(sep) == 'str' else b''
@@ -1314,11 +1316,14 @@ class Interp:
         args = list(arg) if isinstance(arg, tuple) else [arg]
         import re
 
-        parts = re.split(r'(%[sd])', fmt if isinstance(fmt, str) else fmt.decode('latin-1'))
+        parts = re.split(r'(%[sdr])', fmt if isinstance(fmt, str) else fmt.decode('latin-1'))
         out: Any = ''
         for p in parts:
             if p in ('%s', '%d'):
                 out = self.binop(ast.Add(), out, self.to_str(args.pop(0)))
+            elif p == '%r':
+                a = args.pop(0)  # repr of a symbolic value only ever feeds messages: an arbitrary str
+                out = self.binop(ast.Add(), out, repr(a) if deep_concrete(a) else self.ctx.fresh_str('repr'))
             else:
                 if '%' in p.replace('%%', ''):
                     raise Unreached('%%-format %r with symbolic arguments' % (fmt,))
